@@ -371,7 +371,7 @@ pub fn run(run: &mut Run) {
         "the strict grammar (header, max-weight line, weight lines, sorted 1-based lists, zero padding to the maximum in padded form) is the harness author's reading of MacKay's alist format".into(),
     ];
     let miri = cfg!(miri);
-    let n_rt = if miri { 30 } else { run.tier.n(20_000, 1_500_000) };
+    let n_rt = if miri { 30 } else { run.tier.n(600_000, 20_000_000) };
     run.sub("roundtrip", n_rt, |l, idx, rng| {
         let m = gen_matrix(rng, idx);
         let h = if rng.coin() { m.to_sparse() } else { m.to_sparse_shuffled(rng) };
@@ -443,7 +443,7 @@ pub fn run(run: &mut Run) {
         }
     });
 
-    let n_mut = if miri { 120 } else { run.tier.n(100_000, 6_000_000) };
+    let n_mut = if miri { 120 } else { run.tier.n(2_000_000, 80_000_000) };
     run.sub("parser-mutated", n_mut, |l, idx, rng| {
         let m = gen_matrix(rng, idx % 4); // small ones
         let h = m.to_sparse();
@@ -465,7 +465,7 @@ pub fn run(run: &mut Run) {
             l.sample(|| J::obj().set("kind", kind).set("text", text.clone()));
         }
     });
-    let n_soup = if miri { 80 } else { run.tier.n(40_000, 2_000_000) };
+    let n_soup = if miri { 80 } else { run.tier.n(1_000_000, 30_000_000) };
     run.sub("parser-soup", n_soup, |l, _idx, rng| {
         let text = soup(rng);
         check_parser_total(l, &text, "token-soup");
